@@ -28,6 +28,14 @@ Definition law_tbl (t : conv_table) (u : universe) (p : prim) : bool :=
   let c := conv_of_table t in
   match p with
   | PStr _ => true                 (* StringConverter is the identity; an empty element is never handed to it *)
+  | PQName q =>                    (* every recorded lexical form that resolves to q under its prefix map gave q *)
+      forallb (fun e => let '(tys, _, ns, s, r) := e in
+                 negb (lptype_eqb tys [TQName]
+                       && match resolve_qname ns s with
+                          | Some q' => qname_eqb q' (split_qname q)
+                          | None => false
+                          end)
+                 || match r with Some p' => prim_eqb p p' | None => false end) (t_deser t)
   | _ =>
       let hits := filter (fun e => let '(tys, fmt, _, s, _) := e in
                             lptype_eqb tys [prim_ptype p]
@@ -53,17 +61,17 @@ Definition conv_any (t : conv_table) : conv :=
     (c_ser c) (c_test c) (c_datatype c) (c_from_qname c).
 
 (* ---------------------------------------------------------------- boolean `reads` *)
-Inductive ptree := PT (q : qname) (attrs : list (qname * str)) (text tail : option str) (kids : list ptree).
+Inductive ptree := PT (q : qname) (attrs : list (qname * str)) (ns : nsmap) (text tail : option str) (kids : list ptree).
 
 Fixpoint ptree_of (fuel : nat) (evs : list pevent) : option (ptree * list pevent) :=
   match fuel with
   | O => None
   | S f =>
       match evs with
-      | PStart q attrs _ :: r =>
+      | PStart q attrs ns :: r =>
           match ptrees_of f r with
           | Some (ks, PEnd q' text tail :: r') =>
-              if str_eqb q q' then Some (PT q attrs text tail ks, r') else None
+              if str_eqb q q' then Some (PT q attrs ns text tail ks, r') else None
           | _ => None
           end
       | _ => None
@@ -97,10 +105,16 @@ Definition attrs_read_b (eats : list (XmlNs.qname * list atom)) (attrs : list (q
 Fixpoint reads_t (e : XmlNs.enode) (t : ptree) {struct e} : bool :=
   match e, t with
   | EData _, _ => false
-  | EElem q eats ekids, PT name attrs text tail kids =>
+  | EElem q eats ekids, PT name attrs ns text tail kids =>
       str_eqb (clark_of q) name && attrs_read_b eats attrs && blank_o tail
       && match ekids with
          | [] => match text, kids with None, [] => true | _, _ => false end
+         | [EData [AQName qa]] =>
+             match text, kids with
+             | Some ((_ :: _) as s'), [] =>
+                 match resolve_qname ns s' with Some q' => qname_eqb q' qa | None => false end
+             | _, _ => false
+             end
          | [EData atoms] =>
              match atoms_text atoms, text, kids with
              | Some ((_ :: _) as s), Some s', [] => str_eqb s s'
@@ -175,6 +189,23 @@ Definition writer_ok (k : rt_case) : bool :=
   end.
 Definition in_guard_w (k : rt_case) : bool := in_guard k && writer_ok k.
 
+(* a QName value without namespace is written bare; under a user prefix map that binds the default
+   namespace the reader resolves it into that namespace (finding C01-F3, C01_qname_default_ns_refuted):
+   the end-to-end predicates are judged outside that combination *)
+Fixpoint has_local_qname (v : value) : bool :=
+  let fix hl (l : list value) : bool := match l with [] => false | x :: r => has_local_qname x || hl r end in
+  let fix hf (l : list (str * value)) : bool := match l with [] => false | (_, x) :: r => has_local_qname x || hf r end in
+  match v with
+  | VP (PQName q) => match fst (split_qname q) with None => true | Some _ => false end
+  | VList _ l => hl l
+  | VObj _ fs => hf fs
+  | _ => false
+  end.
+Definition binds_default (user : list (option str * str)) : bool :=
+  existsb (fun kv => match fst kv with None | Some [] => true | Some _ => false end) user.
+Definition qname_safe (k : rt_case) : bool := negb (has_local_qname (rc_value k) && binds_default (rc_user k)).
+Definition in_guard_q (k : rt_case) : bool := in_guard_w k && qname_safe k.
+
 (* -- correspondence of the stages (every case) *)
 Definition gen_agree (k : rt_case) : bool :=
   EventGenCorr.gres_events_eqb (EventGen.generate (rc_ign k) (rc_conv k) (rc_universe k) (rc_value k)) (rc_gen k).
@@ -188,11 +219,11 @@ Definition is_roundtrip (k : rt_case) (o : Parser.outcome) : bool :=
 
 (* the oracle: the REAL round trip succeeded *)
 Definition oracle_in_guard (k : rt_case) : bool :=
-  negb (in_guard_w k) || (rc_equal k && is_roundtrip k (rc_parse k)).
+  negb (in_guard_q k) || (rc_equal k && is_roundtrip k (rc_parse k)).
 
 (* the theorem's conclusion on the real events: the MODEL parser returns the instance *)
 Definition theorem_in_guard (k : rt_case) : bool :=
-  negb (in_guard_w k)
+  negb (in_guard_q k)
   || is_roundtrip k (Parser.parse (rc_cfg k) (rc_conv k) (rc_universe k) (Some (rc_cls k)) (rc_pevents k)).
 
 (* the real handler's events read as the tree the specification assigns to the REAL events *)
@@ -202,7 +233,7 @@ Definition expected_of (c : conv) (r : EventGen.gres (list wevent)) : option Xml
   | EventGen.Err _ => None
   end.
 Definition reads_real (k : rt_case) : bool :=
-  negb (in_guard_w k)
+  negb (in_guard_q k)
   || match expected_of (rc_conv k) (rc_gen k) with
      | Some e => reads_b e (rc_pevents k)
      | None => false
@@ -213,5 +244,7 @@ Definition reads_real (k : rt_case) : bool :=
 Definition composition (k : rt_case) : Parser.outcome :=
   Parser.parse (rc_cfg k) (conv_any (rc_table k)) (rc_universe k) (Some (rc_cls k))
     (pump (expected_of (rc_conv k) (EventGen.generate (rc_ign k) (rc_conv k) (rc_universe k) (rc_value k)))).
+(* (the canonical stream `pump` binds no prefixes: instances without QName values) *)
 Definition composition_agrees (k : rt_case) : bool :=
-  negb (in_guard_w k) || ParserCorr.outcome_eqb (composition k) (rc_parse k).
+  negb (in_guard_w k && noq (rc_value k)) || ParserCorr.outcome_eqb (composition k) (rc_parse k).
+Definition uses_qname (k : rt_case) : bool := negb (noq (rc_value k)).
